@@ -27,6 +27,11 @@ def cases(draw, tier="quick"):
     opts = draw(gen.option_sets(universe, frameworks=["base"], layouts=[False]))
     for k in ("fw", "nested", "pic", "meta", "unicode", "max_literals"):
         opts.pop(k, None)
+    if draw(st.integers(0, 9)) == 0:
+        samples, opts["merge"] = draw(gen.same_named_children(universe))
+        if len(samples) < 2:
+            samples = samples + [samples[0]]
+        opts["dkr"], opts["dkf"] = [], []
     n = len(samples)
     perm = draw(st.permutations(list(range(n))))
     ndup = draw(st.integers(0, 3))
